@@ -89,7 +89,13 @@ func main() {
 func analyse(prop, tier, repo, verif string) (*Run, []*Rule, int) {
 	var rules []*Rule
 	for _, r := range allRules {
-		if r.Prop == prop && (r.Tier == "" || r.Tier == tier) {
+		also := false
+		for _, p := range r.Also {
+			if p == prop {
+				also = true
+			}
+		}
+		if (r.Prop == prop || also) && (r.Tier == "" || r.Tier == tier) {
 			rules = append(rules, r)
 		}
 	}
